@@ -9,6 +9,7 @@ import numpy as np
 from .. import lib, ref
 from ..ref import Graph
 
+OPTIMISED_LAST_SHARD = True  # the last shard runs under python -O (no assert statements)
 LEVEL = "exploration"
 TECHNIQUE = 'runtime monitoring: round-trip and differential monitor (legacy vs modular-equivalent streams compared outside the adjacency region and as edge sets inside it) over generated mazes of all kinds; dataset-level tokenization compared per maze'
 RULE = ("3 legacy modes x max_grid_size {None, n, 50} and their modular equivalents (from_legacy) x mazes of all three kinds built by "
